@@ -107,6 +107,11 @@ ROWS = [
  (['C01'], 'escaped.AttributeError@machine.py:out_', F, '0108e7d1', 'OUT &H3C5,1 (or &H3CF) in text mode escaped as AttributeError'),
  (['C01', 'C33', 'C42'], 'escaped.AttributeError@mlparser.py:_parse_indices', F, 'b37e0de9', 'DRAW "U=A(B$);" / PLAY "L=A(B$);" escaped as AttributeError instead of Type mismatch'),
  (['C01', 'C15'], 'escaped.error@program.py:rebuild_line_dict', F, 'ded692ca', 'LOAD of a tokenised file larger than 64K escaped as struct.error; oversized files were not refused with Out of memory'),
+ (['C01'], 'escaped.AttributeError@machine.py:inp', F, 'b11dd3aa', 'A=INP(&H379) / WAIT 889,4,15 on a default session escaped as AttributeError (LPT stream without get_status)'),
+ (['C01'], 'escaped.AttributeError@machine.py:out_', F, 'b11dd3aa', 'OUT &H37A,0 on a default session escaped as AttributeError (LPT stream without set_control)'),
+ (['C01'], 'escaped.TypeError@machine.py:_get_memory', F, '2a546dd3', 'DEF SEG=0: SCREEN 2: PRINT PEEK(1126) escaped as TypeError (colour info byte not returned in graphics modes)'),
+ (['C01', 'C33', 'C42'], 'escaped.KeyError@values.py:from_bytes', F, '026d1fb1', 'PLAY "T="+LEFT$(VARPTR$(D#(1)),2)+";" escaped as KeyError (pointer just beyond the last array)'),
+ (['C01', 'C13'], 'escaped.error@program.py:update_line_dict', F, '339e1ebf', 'entering/LOADing lines in front of a nearly full program grew it past the memory limit and escaped as struct.error'),
  (['C01'], 'escaped.AttributeError@implementation.py:line_input_', F, '7a9a75fa', 'OPEN "SCRN:" FOR RANDOM AS #2: LINE INPUT#2,T$ escaped as AttributeError'),
  (['C01'], 'escaped.ValueError@program.py:edit', F, '69455d23', 'pending EDIT prompt after the line was replaced escaped as ValueError (min of empty sequence)'),
  (['C01'], 'escaped.error@program.py:renum', F, 'ecc8fcf4', 'LOAD of the file FF 49 53 0E then RENUM escaped as struct.error'),
